@@ -24,7 +24,7 @@ def run(chk):
         chk.evaluations += 1
         chk.count("backoff")
         chk.nontriv(c)
-        if a.startswith(("PANIC", "CRASH", "TIMEOUT")):
+        if a.startswith(("PANIC", "CRASH", "TIMEOUT", "HANG")):
             chk.monitor_fail("DialBackoffState panicked", dict(case=c, impl=a))
             continue
         t = c.split()
